@@ -1,10 +1,9 @@
 ------------------------------- MODULE HpMisc -------------------------------
 (* C13: token alphabet for SDP (include/proto/sdp.h: sdp_msg_type_get, sdp_msg_type_get_count,
-   sdp_msg_feilds_get, sdp_msg_sec_chk), run through the generic generator HpTok with
-   HpMisc_sdp.cfg.  The preambles let short token sequences reach the code behind the
+   sdp_msg_feilds_get, sdp_msg_sec_chk); definitions only, the generator is HpTok and the family
+   tables are in HpText.  The preambles let short token sequences reach the code behind the
    "starts with v=0 CRLF" and "at least 16 bytes" gates.  RTP, SAP and MPEG-TS have their own
    field-product generators: HpRtp, HpSap, HpTs.                                          *)
-EXTENDS HpTok
 
 SdpTokens == <<
    (* CRLF='\r\n'  CR='\r'  LF='\n'  A='a'  EQ='='  V0='v=0'  SP=' '  M='m' *)
